@@ -133,7 +133,7 @@ func c06case(c GCase, a *run.Acc, variant int) {
 func c06plan(tier string, seed int64) []run.Job {
 	var jobs []run.Job
 	jobs = append(jobs, run.Job{Family: "corpus"})
-	nr, per := 16, 160
+	nr, per := 16, 400
 	maxNodes := 5
 	if tier == "thorough" {
 		nr, per, maxNodes = 64, 600, 6
